@@ -1042,6 +1042,17 @@ def _closure_of(clo):
     return clo.ty, clo
 
 
+def _apply_fn(interp, path, clo, call_args):
+    """call a closure value (by &mut reference, as iterator adaptors do) or a plain function item -> outcomes"""
+    from .interp import _ConstRef
+    if clo.kind == "fn" and not clo.name.startswith("{closure@"):
+        return interp.call_value(path, clo, list(call_args), None)
+    cty, cval = _closure_of(clo)
+    f = interp.pick_closure(cty, list(call_args), None)
+    a0 = _ConstRef("&mut " + cty, cval) if f.params and norm_ty(f.params[0][1]).startswith("&") else cval
+    return interp.call_function(f, [a0] + list(call_args), path)
+
+
 def _is_indexmap(v):
     return v.kind == "struct" and norm_ty(v.ty).startswith("IndexMap<")
 
@@ -1620,9 +1631,7 @@ def _materialize(interp, path, it):
                 if i == len(items):
                     done.append((p, acc))
                     continue
-                cty, cval = _closure_of(clo)
-                f = interp.pick_closure(cty, [items[i]], None)
-                for o in interp.call_function(f, [_ConstRef("&mut " + cty, cval), items[i]], p):
+                for o in _apply_fn(interp, p, clo, [items[i]]):
                     if o.kind != "ret":
                         bad.append(o)
                     elif it.ty == "IterMap":
@@ -1633,6 +1642,50 @@ def _materialize(interp, path, it):
                             work.append((p2, i + 1, acc + [r.variants[1][0]] if tag == "some" else acc))
         return done, bad
     raise Refuse("cannot iterate %r" % (it,))
+
+
+@model(r"^<\[.*; \d+\] as IntoIterator>::into_iter$", "consuming iterator over an array")
+def m_array_into_iter(interp, path, args, ret_ty, callee):
+    v = args[0]
+    if v.kind != "struct":
+        raise Refuse("array into_iter on %r" % (v,))
+    return StructV("VecIntoIter", list(v.fields))
+
+
+@model(r"^<(array::IntoIter|FilterMap|Map)<.*> as Iterator>::(map|filter_map)::<.*>$", "lazy adaptor over an iterator / adaptor")
+def m_adaptor_over_adaptor(interp, path, args, ret_ty, callee):
+    base = args[0]
+    if base.kind != "struct" or base.ty not in BASE_ITERS + ("IterMap", "IterFilterMap"):
+        raise Refuse("iterator adaptor over %r" % (base,))
+    is_filter = re.search(r">::filter_map::<", canon(callee)) is not None
+    return StructV("IterFilterMap" if is_filter else "IterMap", [base, args[1]])
+
+
+@model(r"^<(array::IntoIter|FilterMap|Map|(vec::)?IntoIter)<.*> as Iterator>::max_by::<.*>$",
+       "the maximum under the comparison closure (the last of several equal maxima, as core does)")
+def m_iter_max_by(interp, path, args, ret_ty, callee):
+    from .interp import _ConstRef
+    done, bad = _materialize(interp, path, args[0])
+    outs = list(bad)
+    for p0, items in done:
+        if not items:
+            outs.append(Outcome(p0, "ret", EnumV(ret_ty, 0, {0: []})))
+            continue
+        work = [(p0, 1, items[0])]
+        while work:
+            p, i, best = work.pop()
+            if i == len(items):
+                outs.append(Outcome(p, "ret", EnumV(ret_ty, 1, {1: [best]})))
+                continue
+            x, y = best, items[i]
+            for o in _apply_fn(interp, p, args[1], [_ConstRef("&" + x.ty, x), _ConstRef("&" + y.ty, y)]):
+                if o.kind != "ret":
+                    outs.append(o)
+                    continue
+                greater = o.value.discr == 1
+                for p2, tag in interp.fork(o.path, [(greater, "keep"), (z3.Not(greater), "take")]):
+                    work.append((p2, i + 1, x if tag == "keep" else y))
+    return outs
 
 
 @model(r"^<(FilterMap|Map)<.*> as Iterator>::collect::<Vec<.*>$", "evaluate the adaptor chain in order into a vector")
